@@ -2,6 +2,7 @@
   C09 — insolvency safety: an account with NLV ≤ 0 never trades and the episode ends.
 -/
 import TradingVerif.Lemmas.EnvStep
+import TradingVerif.Lemmas.IntInst
 set_option linter.unusedSectionVars false
 set_option linter.unusedVariables false
 namespace TV
@@ -126,7 +127,6 @@ This is false of the code-mirroring model (and of the code): the reward computat
 valuation, and its `EndOfEpisodeError` escapes `step`.  The concrete witness below is the 100 / 100 / 10
 price path with weight 3; what does hold is stated after it. -/
 
-instance : HasTrunc Int := ⟨id⟩
 
 def k2cfg : EnvCfg Int :=
   { world := { spec := fun _ => { mult := 1, cashReq := 1, mr := 0 }, fixed := 0, prop := 0, markup := 0,
